@@ -47,12 +47,17 @@ def build_tree(rnd, root, fault, placement, st):
     names = []
     for k in range(n):
         lvl = levels[rnd.randrange(min(len(levels), 1 + k))]
-        nm = [f"{'bmnpqrst'[k]}{k}.css", f"{'bmnpqrst'[k]}{k}.min.css", f"{'bmnpqrst'[k]} {k}.css", f"{'bmnpqrst'[k]}{k}.v2.final.css"][(k + rnd.randrange(4)) % 4 if k else 0]
+        c0 = 'bmnpqrst'[k]
+        nm = [f"{c0}{k}.css", f"{c0}{k}.min.css", f"{c0} {k}.css", f"{c0}{k}.v2.final.css", f"{c0}{k}_cms.css", f"{c0}{k}.css.bundle.css",
+              f"{c0}{k}_cmss.css", f"{c0}{k}.css.css"][(k + rnd.randrange(8)) % 8 if k else 0]
         rel = os.path.normpath(os.path.join(lvl, nm))
         sheet = SS.make_sheet(rnd, premium=st["premium"], default_bg=dbg, rich=False, n_rules=rnd.choice([2, 3, 5, 8]), tag=f"t{k}r",
                               allow={"var", "var-chain", "var-fallback", "var-shared", "invalid", "repeat"})
         text = sheet.text
         # cross-file references: same property name, different values; references to a property defined only elsewhere
+        # every file has its own page background (light in one, dark in the next); rules without a background of their own
+        # are judged against it when the run is given --default-bg "var(--page-bg, white)"
+        text = f":root {{ --page-bg: {['#ffffff', '#101418', '#fdf6e3', '#20242c'][k % 4]}; }}\n.pg{k} {{ color: {['#7c7c7c', '#6f7a86', '#8a8a8a', '#767c88'][k % 4]}; }}\n" + text
         grey = 100 + 7 * k
         if k % 2 == 0:
             text = f":root {{ {shared_var}: rgb({grey}, {grey}, {grey}); --only-in-{k}: #7a7a7a; }}\n" + text
@@ -88,6 +93,10 @@ def build_tree(rnd, root, fault, placement, st):
     else:
         rel = None
         sheets_extra = {}
+    # a bystander whose extension is not lower-case: whether or not the tool regards it as a stylesheet, a repeated run must
+    # not keep producing new files from it
+    sheets_extra = dict(sheets_extra)
+    sheets_extra["PRINT.CSS"] = ".up { color: #777777; background-color: #ffffff }\n"
     for r, text in list(sheets.items()) + list(sheets_extra.items()):
         p = os.path.join(root, r)
         os.makedirs(os.path.dirname(p), exist_ok=True)
@@ -150,7 +159,7 @@ def work(shard, rec):
     rnd = G.rng("c18", shard["seed"], shard["idx"])
     for ti in range(shard["n"]):
         fault, placement = shard["combos"][ti]
-        st = {"mode": rnd.randrange(3), "premium": rnd.random() < 0.3, "default_bg": None}
+        st = {"mode": rnd.randrange(3), "premium": rnd.random() < 0.3, "default_bg": rnd.choice([None, None, "var(--page-bg, white)", "var(--page-bg)"])}
         pristine = os.path.join(scratch, f"p{ti}")
         shutil.rmtree(pristine, ignore_errors=True)
         sheets, faulty, orphans = build_tree(rnd, pristine, fault, tuple(placement), st)
@@ -199,7 +208,7 @@ def judge_tree(rec, scratch, ti, pristine, sheets, faulty, orphans, fault, place
         rec.violation(f"directory run consumed an output file: created {bad_names}", case)
     # everything the run created must be a documented output: sibling <name>_cm.css of an input, or the report
     snap0, snap1 = clirun.snapshot(pristine), clirun.snapshot(work_dir)
-    allowed_new = {r[:-4] + "_cm.css" for r in list(sheets) + faulty} | {"cm_colors_report.html"}
+    allowed_new = {r[:-4] + "_cm.css" for r in list(sheets) + faulty} | {"cm_colors_report.html", "PRINT_cm.CSS", "PRINT_cm.css"}
     stray = sorted(k for k in snap1 if k not in snap0 and k not in allowed_new)
     if stray:
         rec.violation(f"directory run created files that are not '<name>_cm.css' beside an input: {stray[:4]}", case)
@@ -207,7 +216,7 @@ def judge_tree(rec, scratch, ti, pristine, sheets, faulty, orphans, fault, place
         if rel[:-4] + "_cm.css" not in first:
             rec.violation(f"stylesheet {rel} produced no {rel[:-4]}_cm.css in the directory run (stderr tail {err[-160:]!r})", case)
     expected_inputs = len(sheets) + len(faulty)
-    if so["files_announced"] is not None and so["files_announced"] != expected_inputs:
+    if so["files_announced"] is not None and so["files_announced"] not in (expected_inputs, expected_inputs + 1):   # +1: PRINT.CSS, if taken
         rec.violation(f"directory run announces {so['files_announced']} files but the tree holds {expected_inputs} stylesheet inputs (fault {fault})", case)
     # ---- second run over the same tree
     rc2, out2, err2 = clirun.run(args, cwd)
